@@ -326,3 +326,19 @@ package shimagent
 //@   ensures [upstream-failure-surfaces] (!old(s.locked) && ret(filter, f0, 2) == nil && ret(Agent.Signers, g0, 1) != nil) ==> (result0 == nil && result1 == ret(Agent.Signers, g0, 1))
 //@   ensures [no-hidden-upstream-signer] (!old(s.locked) && result1 == nil) ==> forall(i, 0 <= i && i < len(result0), result0[i] != nil &&
 //@     (typeof(result0[i]) == signer || (s.noUpstreamSSHCACert ==> !hiddenKey(signerKey(result0[i])))))
+//@   loop 1:
+//@     invariant wheld(s) && inv(s) && !old(s.locked) && cacheOff(s)
+//@     invariant calls(filter) == f0 + 1 && arg(filter, f0, 0) == s && ret(filter, f0, 2) == nil && calls(Agent.Signers) == g0
+//@     invariant certsNonNil(s)
+//@     invariant signers != nil && fresh(arr(signers))
+//@     invariant forall(i, 0 <= i && i < len(signers), signers[i] != nil && typeof(signers[i]) == signer)
+//@   loop 2:
+//@     invariant wheld(s) && inv(s) && !old(s.locked) && cacheOff(s)
+//@     invariant calls(filter) == f0 + 1 && arg(filter, f0, 0) == s && ret(filter, f0, 2) == nil
+//@     invariant calls(Agent.Signers) == g0 + 1 && arg(Agent.Signers, g0, 0) == s.agent && ret(Agent.Signers, g0, 1) == nil && uss == ret(Agent.Signers, g0, 0) && err == nil
+//@     invariant mapdom(s.certs) == entry(mapdom(s.certs)) && mapval(s.certs) == entry(mapval(s.certs))
+//@     invariant certsNonNil(s)
+//@     invariant signers != nil && fresh(arr(signers)) && allocated(arr(uss)) && arr(signers) != arr(uss)
+//@     invariant forall(j, 0 <= j && j < len(uss), uss[j] != nil)
+//@     invariant [no-hidden-upstream-signer] forall(i, 0 <= i && i < len(signers), signers[i] != nil &&
+//@       (typeof(signers[i]) == signer || (s.noUpstreamSSHCACert ==> !hiddenKey(signerKey(signers[i])))))
